@@ -91,7 +91,7 @@ class C07(Check):
     floor_nontrivial = 30
     required_counters = ("histories_run", "final_measurements_compared", "edge_valued_redshifts")
     shards = (14, 16)
-    budget = (100, 700)
+    budget = (300, 700)
 
     def cases(self, tier, seed):
         q = tier == "quick"
